@@ -102,8 +102,8 @@ CLAIMED = {
   "Scope: the per-call algebra only. NOT covered: that the merged index buffer equals the sequential application of its inputs (ixbuf.Merge, see C11: only Combine and the pass-through guard), btree.MergeAndSave, Meta.LayeredOnto / Apply over the persistent hash trie (hamt) and the exact delta sum for n > 1 (would need recursive spec functions), the scheduling of merge/persist against concurrent commits (UpdateState, merger, checker) - i.e. the property's quantifier over schedules is argued from these per-call facts, not machine-checked. Per-layer lookups are named by uninterpreted functions (ixbuf.Lookup 'defines' its result; the btree lookup is assumed). slc.With/slc.Clone assumed library contracts.",
   "DESIGN.md §0.3 C16"),
  "C18": (
-  "Deductive proof (64-bit bit-vector arithmetic, exact) of the allocation arithmetic of Stor: Alloc returns offset = new size - n, i.e. the window [old size', old size'+n) of the atomically advanced size counter, never straddling a chunk boundary (when the advance would straddle, extend() moves the counter to the start of the next chunk and Alloc retries), the returned slice has exactly len = cap = n and starts at chunk[offset & (chunksize-1)] of chunk offset>>shift; Data/offsetToChunk proved against those definitions incl. bounds; extend keeps previously published chunks and publishes one fresh chunk; the representation invariant (chunksize = 2^shift, chunks value is a [][]byte whose entries have chunksize bytes, size within mapped chunks) is preserved.",
-  "sync/atomic operations are modelled as sequential steps with their documented effects (assumed library contracts); each Alloc is verified as if it ran alone; the concurrent half of the property is carried by machine-checked interference (guarantee) clauses that are obliged across EVERY atomic write of Alloc and extend - allocChunk moves by at most one, a chunk is published only after it is in the table and without touching size, size is only rewound beyond every published chunk, the table only grows - while the step from these guarantees plus atomicity of Uint64.Add (distinct Add results => disjoint windows) to 'no two concurrent allocations overlap' is argued by hand, not machine-checked; the retry loop is unrolled 3 times with an unwinding obligation under a sequential schedule. storage.Get is an assumed interface contract (fresh chunk of the configured size). Bounds assumed: shift < 40, chunk count < 999999. Memory-mapped files and FlushTo/Close not covered.",
+  "Deductive proof (64-bit bit-vector arithmetic, exact) of Stor.Alloc and Stor.extend as ONE thread among arbitrarily many (rely/guarantee): before every call they make - in particular before every atomic operation - the shared cursor state (size, allocChunk, the chunk table) is given arbitrary new values constrained only by the rely clauses. Proved under that interference: the window Alloc returns is exactly the n bytes below the value the atomic counter got from this call's own Add (ghost snapshot taken at that step), it does not straddle a chunk boundary, its chunk was already published (allocChunk) at the instant it was reserved, and the slice has len = cap = n at chunk[offset & (chunksize-1)] of chunk offset>>shift of the current table; extend (under the lock, monitor invariant 'table and allocChunk agree' assumed after Lock and obliged before Unlock) keeps published chunks and leaves allocChunk beyond its argument; Data/offsetToChunk against their definitions incl. bounds. GUARANTEES, obliged across EVERY atomic write of Alloc and extend: the representation invariant holds at every instant (chunksize = 2^shift, every chunk in the table has chunksize bytes, the table is at most one ahead of allocChunk, the cursor is never behind the published chunk), allocChunk moves by at most one, a chunk is published only after it is in the table and without touching size, size is only ever set back to the start of a chunk that is not yet published, the table only grows.",
+  "sync/atomic operations are assumed library contracts (one atomic step each). The rely clauses (what other threads may do between two steps) are ASSUMED in each proof; each is the reflexive-transitive closure of guarantee clauses that are machine-checked for the only two writers - that closure step, and the final step from 'distinct Adds give disjoint windows unless size was rewound in between; a rewind goes beyond every chunk published before it; every returned window lies in a chunk published when it was reserved' to 'no two allocations overlap', are by hand (DESIGN.md), not machine-checked. Sequential consistency of the atomics is assumed. Under interference the 3-attempt retry loop can be exhausted: Alloc then panics 'too many retries' (the property's 'fails loudly'; contract maypanic), so termination with a window is not claimed. Assumed bounds: shift < 40, fewer than 999990 chunks, size counter below 2^63+2^62 (no wrap-around). storage.Get is an assumed interface contract (fresh chunk of the configured size). Memory-mapped files, FlushTo/Close (closedSize) not covered.",
   "DESIGN.md §4 C18"),
 }
 
